@@ -193,20 +193,39 @@ class Exporter:
                 return True
         return False
 
+    @staticmethod
+    def memo_key(op):
+        extra = []
+        try:
+            items = dict(op.arguments) if (Operator2 and isinstance(op, Operator2)) else dict(op.hyperparameters)
+        except Exception:
+            items = {}
+        for k, v in sorted(items.items()):
+            if isinstance(v, (bool, int, str)) or v is None:
+                extra.append((k, v))
+            elif hasattr(v, "__len__") and not isinstance(v, np.ndarray):
+                try:
+                    extra.append((k, len(v)))
+                except Exception:
+                    pass
+        base = getattr(op, "base", None)
+        return (op.name, len(op.wires), tuple(extra), Exporter.memo_key(base) if base is not None and base is not op else None)
+
     def expand(self, op, depth=0):
         if self.leaf(op):
             return
         if op.name in NONCLASSICAL or depth > 12:
             raise NotClassical(op.name)
-        rules = []
+        key = self.memo_key(op)
+        if key in FAILED:
+            raise NotClassical(FAILED[key])
         try:
             rules = applicable_rules(op)
         except Exception:
             rules = []
-        candidates = []
-        for rule in rules:
-            candidates.append(lambda rule=rule: apply_rule(op, rule))
-        candidates.append(lambda: list(op.decomposition()))
+        candidates = [(lambda rule=rule: apply_rule(op, rule)) for rule in rules]
+        if not candidates:
+            candidates.append(lambda: list(op.decomposition()))
         last = None
         for cand in candidates:
             save_g, save_pos, save_n = len(self.gates), dict(self.pos), self.n
@@ -223,7 +242,12 @@ class Exporter:
                 last = NotClassical(f"{op.name}: {type(ex).__name__}")
             del self.gates[save_g:]
             self.pos, self.n = save_pos, save_n
-        raise last or NotClassical(op.name)
+        last = last or NotClassical(op.name)
+        FAILED[key] = str(last)
+        raise last
+
+
+FAILED = {}
 
 
 def bits_of(i, n):
